@@ -6,7 +6,10 @@ R1 coordinate uniformity: data of shape (.. x DIM) is only combined by whole-vec
 R2 scalar factor caches, duration powers and knot times never depend on waypoint / boundary / gradient data;
 R3 the DIM<=3 and DIM>3 branches of the septic adjoint have equal summaries (both equal the same reference, C05-R2/R4);
 R4 parametricity: member bodies of different DIM instantiations are identical after erasing DIM, except inside
-   `if constexpr` branches on DIM.
+   `if constexpr` branches on DIM;
+R5 no run-time condition in the members reachable from the interface (arc length aside) depends - directly, through locals
+   or through the value of a called repository function - on a reduction that mixes the coordinates numerically (norm,
+   dot, isApprox, sum, maxCoeff, ...).
 """
 import json
 
@@ -42,6 +45,118 @@ def writes_numeric(body):
         elif k == "call" and (callee(x).get("op") in ("=", "+=", "-=", "*=", "/=", "<<") or callee(x).get("name") in ("noalias", "setZero", "setConstant", "fill", "push_back", "emplace_back")) and "obj" in x:
             return True
     return False
+
+
+# reductions whose value combines the coordinates numerically (an all-coordinates predicate such as allFinite(), or an
+# exact comparison of whole arrays, is the conjunction of per-coordinate verdicts and is not in this set)
+MIXING = {"norm", "squaredNorm", "stableNorm", "blueNorm", "hypotNorm", "lpNorm", "isApprox", "isMuchSmallerThan", "isApproxToConstant", "dot", "sum", "mean", "prod",
+          "maxCoeff", "minCoeff", "trace", "determinant", "cross"}
+ARC_LENGTH = ("getTrajectoryLength",)       # the length of the curve is a cross-coordinate quantity by definition (C20)
+
+
+def _coord_wide(t, dim):
+    return isinstance(t, dict) and t.get("c") == "eigen" and (t.get("cols") == dim or (t.get("cols") == 1 and t.get("rows") == dim))
+
+
+def _mixing_sites(e):
+    out = []
+    for n in walk(e):
+        if n.get("k") == "call" and callee(n).get("ns") == "Eigen" and callee(n).get("name") in MIXING and isinstance(n.get("obj"), dict):
+            out.append(n)
+    return out
+
+
+class MixTaint:
+    """which conditions of the numeric members depend on a cross-coordinate reduction of DIM-wide data (flow-insensitive
+    over locals, through the values returned by repository functions)"""
+
+    def __init__(self, F, cls, dim, twin):
+        self.F, self.cls, self.dim, self.twin = F, cls, dim, twin
+        self.ret = {}
+
+    def wide_sites(self, f, e):
+        """mixing reductions in e over data as wide as the instantiation's DIM - and, where the same member exists in an
+        instantiation of another DIM, as wide as that DIM there (a 3 x 3 solver block is 3 wide for every DIM)"""
+        sites = [n for n in _mixing_sites(e) if _coord_wide((n.get("obj") or {}).get("t"), self.dim)]
+        if not sites or self.twin is None:
+            return sites
+        tcls, tdim = self.twin
+        g = [h for h in self.F.funcs(tcls, f["name"]) if len(h["params"]) == len(f["params"]) and h.get("const") == f.get("const")]
+        if len(g) != 1:
+            return sites
+        mine = [n for n in _mixing_sites(f.get("body"))]
+        theirs = [n for n in _mixing_sites(g[0].get("body"))]
+        if len(mine) != len(theirs):
+            return sites
+        keep = []
+        for n in sites:
+            k = next((i for i, m in enumerate(mine) if m is n), None)
+            if k is None or _coord_wide((theirs[k].get("obj") or {}).get("t"), tdim) or callee(theirs[k]).get("name") != callee(n).get("name"):
+                keep.append(n)
+        return keep
+
+    def tainted_vars(self, f):
+        defs = {}
+        for n in walk(f.get("body")):
+            if n.get("k") == "decl" and n.get("init") is not None:
+                defs.setdefault(n["id"], []).append(n["init"])
+            elif n.get("k") == "assign" and isinstance(n.get("l"), dict) and n["l"].get("k") == "var":
+                defs.setdefault(n["l"]["id"], []).append(n["r"])
+        bad = {}
+        changed = True
+        while changed:
+            changed = False
+            for vid, rhss in defs.items():
+                if vid in bad:
+                    continue
+                for r in rhss:
+                    w = self.expr_taint(f, r, bad)
+                    if w:
+                        bad[vid] = w
+                        changed = True
+                        break
+        return bad
+
+    def expr_taint(self, f, e, badvars, depth=0):
+        ws = self.wide_sites(f, e)
+        if ws:
+            return "%s (line %s)" % (pp(ws[0])[:70], ws[0].get("line"))
+        for n in walk(e):
+            if n.get("k") == "var" and n.get("id") in badvars:
+                return "%s <- %s" % (n.get("name"), badvars[n["id"]])
+            if n.get("k") == "call" and callee(n).get("fid") in self.F.by_fid and depth < 3:
+                w = self.returns_taint(self.F.by_fid[callee(n)["fid"]], depth + 1)
+                if w:
+                    return "%s() <- %s" % (callee(n).get("name"), w)
+        return None
+
+    def returns_taint(self, g, depth):
+        if g["fid"] in self.ret:
+            return self.ret[g["fid"]]
+        self.ret[g["fid"]] = None
+        if g.get("body") is None or (g.get("ret") or {}).get("c") not in ("bool", "double", "int"):
+            return None
+        bad = self.tainted_vars(g)
+        out = None
+        for n in walk(g["body"]):
+            if n.get("k") == "return" and n.get("e") is not None:
+                out = out or self.expr_taint(g, n["e"], bad, depth)
+            elif n.get("k") in ("if", "while", "dowhile", "for") and not n.get("constexpr") and n.get("cond") is not None:
+                out = out or self.expr_taint(g, n["cond"], bad, depth)     # which value is returned is decided by it
+        self.ret[g["fid"]] = out
+        return out
+
+    def conditions(self, f):
+        """[(node, taint or None)] for every run-time condition of f"""
+        bad = self.tainted_vars(f)
+        out = []
+        for n in walk(f.get("body")):
+            k = n.get("k")
+            if k in ("if", "while", "dowhile", "for") and not n.get("constexpr") and n.get("cond") is not None:
+                out.append((n, self.expr_taint(f, n["cond"], bad)))
+            elif k == "cond" and n.get("c") is not None:
+                out.append((n, self.expr_taint(f, n["c"], bad)))
+        return out
 
 
 def scan_function(f, dim):
@@ -170,6 +285,44 @@ def run(chk):
                     chk.ob("C13-R1", "%s treats all coordinates alike" % f["full"][:140], True, loc(f), "%d coordinate accesses, all under a uniform loop" % okc, construct="%s/uniform" % f["full"][:120])
     chk.note("R1 scanned %d member functions, %d coordinate accesses (all inside uniform loops)" % (nfun, nacc))
     chk.floor("C13-R1", 300)
+    # ---- R5 no run-time decision of the numeric members rests on a cross-coordinate reduction -----------------------------
+    # (what is computed for one coordinate would then depend on the others: a tolerance relative to the norm of the whole
+    # waypoint matrix, a threshold on a dot product, ...)
+    ncond = 0
+    for short in ("PPolyND",) + SPLINES:
+        fulls = full_classes(F, short, ("update",))
+        for cls in fulls:
+            dim = dim_of(F, cls)
+            if dim == 1:
+                continue
+            others = [c for c in fulls if dim_of(F, c) != dim and (F.record(c).get("targs") or [])[1:] == (F.record(cls).get("targs") or [])[1:]]
+            twin = (others[0], dim_of(F, others[0])) if others else None
+            T = MixTaint(F, cls, dim, twin)
+            entries = [f for f in F.funcs(cls) if f.get("access") == "public" and f["name"] not in ARC_LENGTH and f.get("body")]
+            scope = {}
+            for f in entries:
+                scope[f["fid"]] = f
+                for g in F.reachable(f, stop=lambda h: not any(("::" + s_ + "<") in h.get("cls", "") for s_ in ("PPolyND",) + SPLINES)):
+                    if g.get("body") and g["name"] not in ARC_LENGTH:
+                        scope[g["fid"]] = g
+            nhere = 0
+            badc = []
+            for f in scope.values():
+                for n, w in T.conditions(f):
+                    nhere += 1
+                    if w:
+                        badc.append((f, n, w))
+            ncond += nhere
+            chk.ob("C13-R5", "%s: no run-time condition of the members reachable from its interface (arc length aside) depends on a reduction that mixes the coordinates" % cls,
+                   not badc, loc(badc[0][0], badc[0][1]) if badc else loc(entries[0]) if entries else "",
+                   "%d conditions in %d functions inspected%s" % (nhere, len(scope), "; first: %s in %s" % (badc[0][2], badc[0][0]["name"]) if badc else ""),
+                   construct=cls + "/no-mixing-decision")
+            for f, n, w in badc[1:6]:
+                chk.ob("C13-R5", "%s::%s condition independent of cross-coordinate reductions" % (cls, f["name"]), False, loc(f, n), w, construct="%s/%s/mixing-decision/%s" % (cls, f["name"], pp(n.get("cond") or n.get("c"))[:50]))
+    chk.note("R5 inspected %d run-time conditions" % ncond)
+    if ncond < 100:
+        raise Broken("C13-R5 inspected only %d conditions" % ncond)
+    chk.floor("C13-R5", 4)
     if any(not o["ok"] for o in chk.obs):
         # Engine A rejects exactly these constructs; the typed scan has already reported them as violations
         chk.note("R2/R3/R4 skipped: the typed scan found coordinate accesses outside uniform loops")
